@@ -413,3 +413,19 @@ mod tests {
     }
 }
 
+
+#[cfg(uflow_verif)]
+impl SendRateComp {
+    pub fn verif_mode_tag(&self) -> u8 {
+        match self.mode {
+            SendRateMode::AwaitSend => 0,
+            SendRateMode::SlowStart(_) => 1,
+            SendRateMode::ThroughputEqn(_) => 2,
+        }
+    }
+    pub fn verif_send_rate(&self) -> u32 { self.send_rate }
+    pub fn verif_max_send_rate(&self) -> u32 { self.max_send_rate }
+    pub fn verif_prev_loss_rate(&self) -> f64 { self.prev_loss_rate }
+    pub fn verif_nofeedback_exp_ms(&self) -> Option<u64> { self.nofeedback_exp_ms }
+    pub fn verif_nofeedback_idle(&self) -> bool { self.nofeedback_idle }
+}
